@@ -364,6 +364,9 @@ PROPS["C12"]["tests"].append(dict(name="TestVF_C12Hostile", env=dict(VERIF_CASE_
 PROPS["C17"]["tests"].append(dict(name="TestVF_C17Overlap", env=dict(VERIF_CASE_LIMIT=300),
                                   quick=dict(checks=32, shards=16, timeout=900, shrink="60s"), thorough=dict(checks=640, shards=16, timeout=6000, shrink="120s")))
 
+PROPS["C12"]["tests"].append(dict(name="TestVF_C12Relay", env=dict(VERIF_CASE_LIMIT=120),
+                                  quick=dict(checks=1600, shards=16, timeout=600), thorough=dict(checks=64000, shards=16, timeout=6000)))
+
 PROPS["C12"]["tests"].append(dict(name="TestVF_C12Archive", env=dict(VERIF_CASE_LIMIT=120),
                                   quick=dict(checks=16000, shards=8, timeout=600), thorough=dict(checks=1600000, shards=16, timeout=6000)))
 
@@ -423,7 +426,8 @@ _amend("C17", "and forged lines).",
 _amend("C19", "then the same hand-back checks.",
        "then the same hand-back checks. The server's data carries ZDLE bytes, also as the last byte of a read.")
 PROPS["C12"]["level_text"] += (" TestVF_C12Archive feeds generated archive streams (entry headers with every member hostile: negative / huge / non-integer sizes, odd path lists, "
-                               "permission bits, raw lines; payloads of any length) to the real archive writer in any segmentation: no panic, nothing created outside the destination.")
+                               "permission bits, raw lines; payloads of any length) to the real archive writer in any segmentation: no panic, nothing created outside the destination. "
+                               "TestVF_C12Relay sends a real relay well-formed ACT / CFG lines whose payload is not the expected object (null, [], 5, ...) or carries hostile members.")
 PROPS["C05"]["level_text"] += (" Histories also hold a drag that is taken back (paths kept from the server by design, the key goes through, output keeps passing) and, beside every "
                                "download the wrapper refuses by itself, 400 ms of remote lines and typed tokens that must all get through.")
 PROPS["C03"]["level_text"] += " Reads that start at a chunk boundary and end inside the next chunk may be issued with an already-fired timer: a read that times out has consumed nothing."
